@@ -40,7 +40,7 @@ def prims_of(prop):
 
 
 def one(prim, cfg, flavour, seed, count, length, threads, binary, workdir):
-    tag = "%s-%s-%s-%d" % (prim, cfg.replace(" ", "_"), flavour, threads)
+    tag = "%s-%s-%s-%d%s" % (prim, cfg.replace(" ", "_"), flavour, threads, "-release" if binary == HARNESS_RELEASE else "")
     hist = os.path.join(workdir, tag + ".hist"); obs = os.path.join(workdir, tag + ".obs")
     with open(hist, "w") as hf:
         subprocess.run([MODELRUN, "pargen", prim, cfg, str(seed), str(count), str(length), str(threads)], stdout=hf, stderr=subprocess.DEVNULL)
